@@ -38,11 +38,31 @@ pub fn check(c: &Case) -> R {
     ensure!(n >= 1 && c.k >= 1, "harness: empty bit vector or k=0 generated");
     ensure!(c.bits.bytes().all(|b| b == b'0' || b == b'1'), "harness: bits must be a string of 0/1");
     let bools: Vec<bool> = c.bits.bytes().map(|b| b == b'1').collect();
-    let mut bv: BitVec<u8> = BitVec::new_fill(false, n as u64);
-    for (i, &b) in bools.iter().enumerate() {
-        if b {
-            bv.set_bit(i as u64, true);
+    // The logical content is `bools`; how the BitVec came to hold it varies with the case (a fixed function of
+    // n and k, so that replays agree): built clean, cut down from a longer all-ones vector (the storage bits
+    // behind the end may keep their old value), or grown by push and cut back by pop.
+    let history = (n + c.k) % 3;
+    let mut bv: BitVec<u8> = match history {
+        0 => BitVec::new_fill(false, n as u64),
+        1 => {
+            let mut v: BitVec<u8> = BitVec::new_fill(true, n as u64 + 13);
+            v.truncate(n as u64);
+            v
         }
+        _ => {
+            let mut v: BitVec<u8> = BitVec::new();
+            for i in 0..n + 5 {
+                v.push(i % 2 == 0 || i >= n);
+            }
+            for _ in 0..5 {
+                v.pop();
+            }
+            v
+        }
+    };
+    ensure!(bv.len() == n as u64, "harness: bit vector of length {} built, expected {}", bv.len(), n);
+    for (i, &b) in bools.iter().enumerate() {
+        bv.set_bit(i as u64, b);
     }
     let rs = RankSelect::new(bv, c.k);
     let k = c.k;
@@ -97,6 +117,8 @@ pub fn check(c: &Case) -> R {
     pass.add_if(n % s == 1, "n = 32kj+1");
     pass.add_if(n % s == s - 1, "n = 32kj-1");
     pass.add_if(n % 8 != 0, "last byte padded");
+    pass.add_if(history == 1 && n % 8 != 0 && bools.iter().any(|b| !b), "vector cut down from all-ones (storage behind the end may be dirty), holds a zero");
+    pass.add_if(history == 2, "vector grown by push and cut back by pop");
     pass.add_if(n % 8 != 0 && !bools[n - 1], "last byte padded and last bit zero (select_0 next to the padding)");
     pass.add_if(n % 8 != 0 && pos1.is_empty(), "padded and all zero (select_0(n+1) must not see padding)");
     pass.add_if(pos1.is_empty(), "all zero");
